@@ -79,6 +79,10 @@ struct RawKern {
 	fee: u8,
 	shift: u8,
 	lock: u16,
+	/// 1 | 2: the private excess comes from this tag alone — kernels with the same tag (in one transaction or in
+	/// different ones) share their excess commitment while differing in fee, variant or lock (what a wallet
+	/// re-signing with the same excess, or an NRD duplicate, produces); 0: an excess of its own
+	tag: u8,
 }
 
 #[derive(Clone, Debug)]
@@ -104,8 +108,9 @@ fn raw_kern() -> impl Strategy<Value = RawKern> {
 		0u8..MAX_FEE as u8,
 		prop_oneof![3 => Just(0u8), 1 => 0u8..=15],
 		any::<u16>(),
+		prop_oneof![8 => Just(0u8), 1 => Just(1u8), 1 => Just(2u8)],
 	)
-		.prop_map(|(kind, fee, shift, lock)| RawKern { kind, fee, shift, lock })
+		.prop_map(|(kind, fee, shift, lock, tag)| RawKern { kind, fee, shift, lock, tag })
 }
 
 fn raw_tx() -> impl Strategy<Value = RawTx> {
@@ -185,10 +190,27 @@ fn resolve(raw: &Raw) -> Case {
 						KKind::HeightLocked => k.lock as u64,
 						KKind::Nrd => 1 + (k.lock as u64 % grin_core::consensus::WEEK_HEIGHT),
 					},
-					excess_tag: 0,
+					// (an aggregate with two NRD kernels of one excess is refused by the NRD rule itself: shared
+					// excesses are for the other variants)
+					excess_tag: if kind == KKind::Nrd { 0 } else { k.tag as u32 },
 				}
 			})
 			.collect();
+		// two kernels that agree in everything including the tag would be the same kernel twice (an aggregate
+		// holding it is refused for the duplicate, which is not what this domain is about): the later one gets
+		// an excess of its own
+		let mut kernels = kernels;
+		for i in 0..kernels.len() {
+			if kernels[i].excess_tag == 0 {
+				continue;
+			}
+			let same = |a: &KernelSpec, b: &KernelSpec| a.kind == b.kind && a.fee == b.fee && a.shift == b.shift && a.lock == b.lock && a.excess_tag == b.excess_tag;
+			let dup_here = (0..i).any(|j| same(&kernels[j], &kernels[i]));
+			let dup_before = txs.iter().any(|t: &TxSpec| t.kernels.iter().any(|o| same(o, &kernels[i])));
+			if dup_here || dup_before {
+				kernels[i].excess_tag = 0;
+			}
+		}
 		let need: u64 = outputs.iter().map(|o| o.amount).sum::<u64>() + kernels.iter().map(|k| k.fee).sum::<u64>();
 		let mut inputs = vec![];
 		let mut csum = 0u64;
@@ -322,12 +344,15 @@ fn fast_assemble(spec: &TxSpec) -> Result<Transaction, Fail> {
 	}
 	let r = sum_scalars(out_blinds, in_blinds).ok_or_else(|| Fail::new("harness:assemble", "blinding sum is zero"))?;
 	let tag = format!("{:?}", spec);
-	let mut keys: Vec<SecretKey> = (0..spec.kernels.len()).map(|i| scalar_from(format!("{}#{}", tag, i).as_bytes())).collect();
+	let mut keys: Vec<SecretKey> = (0..spec.kernels.len())
+		.map(|i| if spec.kernels[i].excess_tag != 0 { scalar_from(format!("tag{}", spec.kernels[i].excess_tag).as_bytes()) } else { scalar_from(format!("{}#{}", tag, i).as_bytes()) })
+		.collect();
 	ensure!(!keys.is_empty(), "harness:assemble", "spec without kernels");
 	let mut offset = BlindingFactor::zero();
-	if spec.zero_offset {
-		let f = keys.len() - 1;
-		let others: Vec<SecretKey> = keys[..f].to_vec();
+	// with a zero offset one kernel key is determined by the rest: it must be one whose excess is its own
+	let free = spec.kernels.iter().rposition(|k| k.excess_tag == 0);
+	if let (true, Some(f)) = (spec.zero_offset, free) {
+		let others: Vec<SecretKey> = keys.iter().enumerate().filter(|(i, _)| *i != f).map(|(_, k)| k.clone()).collect();
 		keys[f] = sum_scalars(vec![r], others).ok_or_else(|| Fail::new("harness:assemble", "kernel key is zero"))?;
 	} else {
 		let o = sum_scalars(vec![r], keys.clone()).ok_or_else(|| Fail::new("harness:assemble", "offset is zero"))?;
@@ -701,7 +726,6 @@ pub fn check_multiset(ctx: &Ctx, case: &Case, counting: bool) -> PResult {
 	ensure!(n >= 1 && n <= 8, "harness:case", "multiset of {} transactions", n);
 	for s in &case.txs {
 		ensure!(s.balanced(), "harness:unbalanced", "spec does not balance: {:?}", s);
-		ensure!(s.kernels.iter().all(|k| k.excess_tag == 0), "harness:case", "excess tags are not part of this domain");
 	}
 	let txs: Vec<Transaction> = case.txs.iter().map(fast_assemble).collect::<Result<_, _>>()?;
 	for (i, tx) in txs.iter().enumerate() {
